@@ -31,6 +31,10 @@ package rpc
 //@   frame nothing
 //@   ensures result <==> has(jrpcFuncBlacklist, funcName)
 
+//@ func checkGrpcFuncValidity [C39]
+//@   frame nothing
+//@   ensures result <==> !has(grpcFuncBlacklist, funcName) && (has(grpcFuncWhitelist, "*") || has(grpcFuncWhitelist, funcName))
+
 // gRPC: a non-loopback caller passes only with a whitelisted address and an allowed method name
 //@ func auth [C39]
 //@   opt safety=assumed
